@@ -25,18 +25,10 @@ theorem commit_true_stamp {st : Store} {t : Trx} {sink : List SinkEv}
     · simp [commit, ho, h2] at h
     by_cases h3 : (flushT t).heads.isEmpty = true
     · simp [commit, ho, h2, h3] at h
-    have hc : commit (some st) t sink =
-        (match (flushT t).heads.foldl hsPush [] with
-          | [h] =>
-            match stateOf (st.graph ++ (flushT t).written) h with
-            | none => (some st, sink, .error .bug)
-            | some s => (some { graph := st.graph ++ (flushT t).written, heads := (flushT t).heads.foldl hsPush [], stamp := st.stamp + 1, facts := s }, sink, .ok true)
-          | _ =>
-            match braidFacts (st.graph ++ (flushT t).written) ((flushT t).heads.foldl hsPush []) with
-            | .error e => (some st, sink, .error e)
-            | .ok (s, fx) => (some { graph := st.graph ++ (flushT t).written, heads := (flushT t).heads.foldl hsPush [], stamp := st.stamp + 1, facts := s }, sink ++ braidEvs fx, .ok true)) := by
-      simp [commit, ho, h2, h3]
-    rw [hc] at h ⊢
+    have h2' : flushErr t = false := by simpa using h2
+    have h3' : (flushT t).heads.isEmpty = false := by simpa using h3
+    unfold commit at h ⊢
+    simp only [ho, ne_eq, not_true_eq_false, if_false, h2', h3', Bool.false_eq_true] at h ⊢
     generalize (flushT t).heads.foldl hsPush [] = hs at h ⊢
     match hs with
     | [] =>
